@@ -19,6 +19,25 @@ CHECKS = {
         "Trusts vlib/si.py (SI table written from the SI definitions and the documentation's symbol "
         "table). Values restricted to 1e-6<=|v|<=1e6 so that no overflow occurs; tolerance 1e-12 relative "
         "as the property states."),
+    "C05": (
+        "Hypothesis expression-tree generation vs exact Fraction SI interpreter (differential oracle)",
+        "Exploration. Random expression trees (depth <= 3) over UnitValue/UnitArray/number leaves in "
+        "independent unit systems are evaluated by strengths and by an independent exact-rational "
+        "interpreter with forward error bounds; outcomes must-raise / value+dimension+shape are compared; "
+        "a second facet does the same for the six comparison operators.",
+        "Trusts vlib/si.py and the interpreter in props/c05.py. Cases near a discontinuity of % or a "
+        "comparison, outside 1e-250..1e250, or where a plain number meets an intermediate result whose "
+        "storage system the property leaves open are skipped and counted."),
+    "C18": (
+        "bounded-exhaustive enumeration + Hypothesis grammar-based generation and mutation vs a "
+        "three-valued reference grammar; print-parse round trip",
+        "Exploration. One-factor strings are enumerated exhaustively (two-factor strings exhaustively in "
+        "the thorough tier); 1-3 factor strings, quantity strings and single-mutation malformed strings "
+        "are generated with Hypothesis and decided by an independent reference grammar (ACCEPT: same "
+        "dimension, base units, SI scale; REJECT: must raise; UNSPEC: nothing asserted); print->parse "
+        "round trip over all unit systems x exponents -9..9 x any finite double must be bit-identical.",
+        "Trusts vlib/unitgrammar.py (written from documentation/using_quantities_with_units.rst) and "
+        "vlib/si.py. Text the documentation neither allows nor lists as wrong is not asserted."),
 }
 
 NOT_BUILT = "check not built yet in this working session (planned; DESIGN.md section 4)"
